@@ -158,6 +158,8 @@ def run_case(torf, wd, c):
         'want_pieces': want_pieces,
         'total': len(want_pieces) // 20,
         'read_calls': plan['calls'],
+        'structure': {'pq_max': sched.queues[0].maxsize if sched.queues else None,
+                      'hq_max': sched.queues[1].maxsize if len(sched.queues) > 1 else None},
     }
     if 'exc' in res:
         obs['result'] = {'raised': exc_obs(torf, res['exc'], index_of, cb_exc)}
